@@ -40,6 +40,12 @@ func schema(variant string) models.IndexSchema {
 		"a":    {Type: models.IndexTypeInteger},
 		"f":    {Type: models.IndexTypeFloat},
 	}
+	if variant == "quant" {
+		// quantisers that learn their parameters at the third point: the batch that crosses the
+		// trigger writes the learned state (threshold / centroids) as well, and those puts can fail too
+		s["qb"] = models.IndexSchemaValue{Type: models.IndexTypeVectorFlat, VectorFlat: &models.IndexVectorFlatParameters{VectorSize: 4, DistanceMetric: models.DistanceEuclidean, Quantizer: &models.Quantizer{Type: models.QuantizerBinary, Binary: &models.BinaryQuantizerParamaters{TriggerThreshold: 3, DistanceMetric: models.DistanceHamming}}}}
+		s["qp"] = models.IndexSchemaValue{Type: models.IndexTypeVectorVamana, VectorVamana: &models.IndexVectorVamanaParameters{VectorSize: 4, DistanceMetric: models.DistanceEuclidean, SearchSize: 75, DegreeBound: 64, Alpha: 1.2, Quantizer: &models.Quantizer{Type: models.QuantizerProduct, Product: &models.ProductQuantizerParameters{NumCentroids: 2, NumSubVectors: 2, TriggerThreshold: 3}}}}
+	}
 	if variant == "badpq" {
 		// validation lets this through; constructing the index fails (4 % 3 != 0)
 		s["pq"] = models.IndexSchemaValue{Type: models.IndexTypeVectorFlat, VectorFlat: &models.IndexVectorFlatParameters{VectorSize: 4, DistanceMetric: models.DistanceEuclidean, Quantizer: &models.Quantizer{Type: models.QuantizerProduct, Product: &models.ProductQuantizerParameters{NumCentroids: 4, NumSubVectors: 3, TriggerThreshold: 1000}}}}
@@ -50,7 +56,7 @@ func schema(variant string) models.IndexSchema {
 var stored, queriesV = sl.VectorPool(models.DistanceEuclidean)
 
 func doc(i int) sl.Doc {
-	return sl.Doc{"vec": stored[i%8], "flat": stored[(i+3)%8], "txt": []string{"quick brown fox", "quick quick dog", "lazy dog", "zebra fox"}[i%4], "s": []string{"Ab", "aB", "b"}[i%3], "tags": []string{"x", fmt.Sprintf("t%d", i%2)}, "a": int64(i%3 - 1), "f": float64(i) / 2}
+	return sl.Doc{"vec": stored[i%8], "flat": stored[(i+3)%8], "qb": stored[(i+1)%8], "qp": stored[(i+5)%8], "txt": []string{"quick brown fox", "quick quick dog", "lazy dog", "zebra fox"}[i%4], "s": []string{"Ab", "aB", "b"}[i%3], "tags": []string{"x", fmt.Sprintf("t%d", i%2)}, "a": int64(i%3 - 1), "f": float64(i) / 2}
 }
 
 func symbols() *sl.Symbols {
@@ -318,6 +324,7 @@ func worker(raw json.RawMessage) (json.RawMessage, error) {
 	}
 	res.Failed = got.Err != nil
 	res.Fired = in.Proxy.Fired()
+	firedSite := in.Proxy.FiredSite()
 	txCounts := in.Proxy.TxCounts()
 	images := in.Proxy.Snapshots()
 	labels := in.Proxy.SnapshotLabels()
@@ -336,6 +343,17 @@ func worker(raw json.RawMessage) (json.RawMessage, error) {
 	case "fault":
 		if !res.Failed && exp.Reject {
 			res.v("accepted-batch-that-must-be-rejected", "%s under %v", st.op.Name, j.Fault)
+		}
+		if !res.Failed && res.Fired && j.Fault != nil && j.Fault.Action == "fail" {
+			// the code under test was handed an error for a storage operation of this batch and
+			// reported success: the error was dropped somewhere
+			site := firedSite
+			if parts := strings.Split(site, " < "); len(parts) > 2 {
+				site = strings.Join(parts[:2], "<")
+			} else {
+				site = strings.ReplaceAll(site, " < ", "<")
+			}
+			res.v("storage-error-swallowed:"+j.Fault.Kind+"@"+site, "%s met an injected storage error (%s, issued by %s) but reported success", st.op.Name, faultStr(j.Fault), firedSite)
 		}
 		if j.Fault == nil {
 			if sig, detail := sl.CompareResult(st.op, exp, got); sig != "" {
@@ -419,7 +437,7 @@ func clip(s string) string {
 }
 
 func master(cfg *harness.Config, rep *harness.Report) {
-	rep.Rule = "cases = start state {empty, 3 points warm, 3 points reopened cold} x batch {insert 1, insert 3, update every indexed field of 2 points, remove every indexed field, delete 2, and the validation rejections: duplicate id in batch, existing id last of 3 (with a document, and as a point without any data), merged document over MaxPointSize, wrong field type; an insert of 10000 points (accepted, and rejected at its last point: four fault ordinals per bucket and kind); plus an index whose construction fails}; per case a counting run, then one run per fault point = every (bucket, kind in {Put, Delete, ForEach, Scan, BucketOpen, TxBegin}, ordinal) the batch issues, failing exactly that operation; the first and last ordinal of every (bucket, kind) and the fault-free batch additionally under two schedule policies (index pipelines held back / point store held back); one run that takes a crash image of the file at every storage operation, when the transaction function returned, and after commit; and one run per storage operation (reads included) in which the process dies by a panic raised at that operation on the goroutine that issued the batch, so that every deferred function between the operation and the caller runs before the file is inspected (operations issued by other goroutines die without unwinding: their death is the crash image). Oracle: a failed call leaves observation battery + raw bucket digest identical to before, on the running instance and after reopen; a successful call equals the reference model; crash images before commit and the file left by a death by panic equal the state before, after commit the model after; storage use after transaction end is recorded by the proxy. distinct_nontrivial = fault points that fired"
+	rep.Rule = "cases = start state {empty, 3 points warm, 3 points reopened cold} x batch {insert 1, insert 3, update every indexed field of 2 points, remove every indexed field, delete 2, and the validation rejections: duplicate id in batch, existing id last of 3 (with a document, and as a point without any data), merged document over MaxPointSize, wrong field type; an insert of 10000 points (accepted, and rejected at its last point: four fault ordinals per bucket and kind); plus an index whose construction fails, plus four cases on a schema with a learned binary and a product quantiser whose trigger threshold the batch crosses}; per case a counting run, then one run per fault point = every (bucket, kind in {Put, Delete, ForEach, Scan, BucketOpen, TxBegin}, ordinal) the batch issues, failing exactly that operation; the first and last ordinal of every (bucket, kind) and the fault-free batch additionally under two schedule policies (index pipelines held back / point store held back); one run that takes a crash image of the file at every storage operation, when the transaction function returned, and after commit; and one run per storage operation (reads included) in which the process dies by a panic raised at that operation on the goroutine that issued the batch, so that every deferred function between the operation and the caller runs before the file is inspected (operations issued by other goroutines die without unwinding: their death is the crash image). Oracle: a failed call leaves observation battery + raw bucket digest identical to before, on the running instance and after reopen; a successful call equals the reference model; crash images before commit and the file left by a death by panic equal the state before, after commit the model after; storage use after transaction end is recorded by the proxy. distinct_nontrivial = fault points that fired"
 	rep.Assumptions = []string{"Get cannot return an error in the storage API: reads are counted, not failed", "bbolt's own commit (page writes + fsync) is atomic: torn pages inside a commit are not enumerated", "goroutine interleavings inside the batch are those the real scheduler produced (schedule policies: see DESIGN.md)"}
 	p := pool.New(pool.Options{CPUsPerWorker: 2, JobTimeout: 90 * time.Second})
 	run := func(jobs []job) []pool.Result {
@@ -454,6 +472,10 @@ func master(cfg *harness.Config, rep *harness.Report) {
 		}
 	}
 	cases = append(cases, Case{State: "empty", Batch: "ins1(pq field)", Schema: "badpq"}, Case{State: "warm3", Batch: "ins1(pq field)", Schema: "badpq"})
+	// learned quantisers: the batch that crosses the trigger threshold (and the ones around it)
+	for _, c := range []Case{{State: "empty", Batch: "ins3", Schema: "quant"}, {State: "warm3", Batch: "ins1", Schema: "quant"}, {State: "warm3", Batch: "del2", Schema: "quant"}, {State: "cold3", Batch: "upd(all indexed fields of 1, 2)", Schema: "quant"}} {
+		cases = append(cases, c)
+	}
 	// the largest batch the HTTP layer lets through, accepted and rejected at its last point
 	cases = append(cases, Case{State: "warm3", Batch: "ins10000", Schema: "full"}, Case{State: "warm3", Batch: "reject: existing id last of 10000", Schema: "full"})
 	// 1. counting runs
